@@ -60,8 +60,8 @@ def install():
 
 
 EMBED_T = ["direct", "lst", "dct", "holder_t", "holder_ts", "pre_t", "pre_nested_t", "explicit", "meta_t", "meta_ts", "copied"]
-EMBED_O = ["art", "arts", "adct", "holder_a", "pre_art", "init_art", "explicit", "meta_art", "copied"]
-SINGLE = {"direct", "art", "holder_t", "holder_a", "meta_t", "meta_art"}
+EMBED_O = ["art", "arts", "adct", "holder_a", "pre_art", "init_art", "explicit", "meta_art", "copied", "self_t", "self_ts"]
+SINGLE = {"direct", "art", "holder_t", "holder_a", "meta_t", "meta_art", "self_t"}
 # "pre_on_out" (added by the plan generator, needs a second dependency as carrier): the upstream is embedded in a
 # pre-task attached to the *output configuration of another upstream task*, which the job receives as a parameter
 
@@ -139,6 +139,11 @@ class PlanRun:
                 a = zoo.Artifact(v=1000 + n)
                 a.copy_dependencies(out)
                 kwargs.setdefault("arts", []).append(a)
+            elif how == "self_t":
+                # the task object itself of a class that declares task_outputs (not its output)
+                kwargs["tb"] = self.tasks[up]
+            elif how == "self_ts":
+                kwargs.setdefault("tbs", []).append(self.tasks[up])
             elif how == "meta_t":
                 kwargs["mt"] = out
             elif how == "meta_ts":
